@@ -42,9 +42,11 @@ func (deb *Deb) CheckDebsig(validKeys openpgp.EntityList, sigType string) (signe
 	if control == nil || data == nil {
 		return nil, fmt.Errorf("unable to find signed data")
 	}
-	binaryFlag.Data.Seek(0, 0)
-	control.Data.Seek(0, 0)
-	data.Data.Seek(0, 0)
-	signedData := io.MultiReader(binaryFlag.Data, control.Data, data.Data)
-	return openpgp.CheckDetachedSignature(validKeys, signedData, sig.Data)
+	/* views of our own: the members' readers belong to the user, and
+	 * Deb.Data is still streaming from one of them */
+	whole := func(e *ArEntry) io.Reader {
+		return io.NewSectionReader(e.Data, 0, e.Data.Size())
+	}
+	signedData := io.MultiReader(whole(binaryFlag), whole(control), whole(data))
+	return openpgp.CheckDetachedSignature(validKeys, signedData, whole(sig))
 }
